@@ -234,8 +234,8 @@ def check_parser_agreement(chk, prog, env, model):
             alloc_may_fail = False
 
             def on_call(self, it, st, name, args, node):
-                if name == 'json_loads':
-                    flags.setdefault(tag, []).append((args[1], node_loc(node)))
+                if name in ('json_loads', 'json_loadb'):
+                    flags.setdefault(tag, []).append((args[1] if name == 'json_loads' else args[2], node_loc(node)))
         it = Interp(prog, unit, model=model, rule=R(), hooks=H.std_hooks(env))
         st = State()
         it.run(fn, args_of(st), st)
@@ -244,7 +244,7 @@ def check_parser_agreement(chk, prog, env, model):
     n = 0
     bad = 0
     if not flags.get('builder') or not flags.get('checker'):
-        raise AnalysisBroken('json_loads call sites of builder setter / checker parser not found')
+        raise AnalysisBroken('JSON parse call sites of builder setter / checker parser not found')
     chk_perm = None
     for fl, loc in flags['checker']:
         v = fl.v if isinstance(fl, Int) else None
@@ -292,7 +292,6 @@ def run(chk, prog, tier):
     chk.guard('openssl ecdsa layout', check_openssl_ecdsa, chk, prog, env, model)
     chk.guard('gnutls ecdsa layout', check_gnutls_ecdsa, chk, prog, env, model)
     chk.guard('token assembly', c10.check_assembly, chk, prog, env, model)
-    chk.guard('signing length', c10.check_buffers, chk, prog, env, model)
     from props import c11
     chk.guard('encoder length fact', c11.check_url_maps, chk, prog, model)
     chk.guard('signing input', c01.check_signing_input, chk, prog, env, model)
